@@ -48,6 +48,8 @@ def gen_scripts(ck, rng, quick):
                 msg = valid_asdu(rng, cfg, t, sq, count)
                 idxs = idx_set(count)
                 cases.append(("trunc", msg, idxs))
+                if not quick:
+                    cases.append(("dec", msg, list(range(128))))       # every index on the complete message
                 # mutations: type octet, VSQ, one payload octet
                 for k in range(3 if quick else 12):
                     m = list(msg)
